@@ -292,7 +292,9 @@ def spf_cases(rng):
     if rng.random() < 0.4:
         mods.append('redirect=_spf.example.net')
     else:
-        terms.append(rng.choice(['-', '~', '?', '+', '']) + 'all')
+        # "all" is usually the last mechanism, but nothing in the grammar of RFC 7208 section 12 makes it so: a record may end
+        # with any term, a short one ("mx", "a", "ptr") included
+        terms.insert(len(terms) if rng.random() < 0.6 else rng.randint(0, len(terms)), rng.choice(['-', '~', '?', '+', '']) + 'all')
     if rng.random() < 0.3:
         mods.append('exp=explain._spf.example.com')
     canon = ' '.join(['v=spf1'] + terms + mods)
@@ -309,10 +311,13 @@ def spf_cases(rng):
         # modifiers may appear anywhere; the order of the mechanisms is significant and is kept
         k = rng.randint(0, len(terms))
         out.append(('order', ' '.join(['v=spf1'] + terms[:k] + mods + terms[k:])))
+        if terms:
+            out.append(('order', ' '.join(['v=spf1'] + mods + terms)))     # the record ends with a mechanism
         del allterms
     unk = terms + mods
     unk.insert(rng.randint(0, len(unk)), rng.choice(['x-unknown=value', 'moo=%{d}']))
     out.append(('unknown-directive', ' '.join(['v=spf1'] + unk)))
+    out.append(('unknown-directive', ' '.join(['v=spf1'] + terms + mods + [rng.choice(['k=v', 'x=', 'n=1'])])))    # a short one, last
     return t.DnsRecordTxtValueSpf, canon, out
 
 
